@@ -8,7 +8,9 @@ package cache
 
 //@ mode int
 
-//@ spec func noDup(l *LRUCache) bool = forall i, j :: 0 <= i && i < j && j < len(l.order) ==> l.order[i] != l.order[j]
+// noDup is stated over absolute positions of the backing array so that it
+// carries over to sub-slices (order[1:]) by plain instantiation.
+//@ spec func noDup(l *LRUCache) bool = forall a, b :: lo(l.order) <= a && a < b && b < hi(l.order) ==> at(l.order, a) != at(l.order, b)
 //@ spec func wfLRU(l *LRUCache) bool = l != nil && l.cache != nil && l.capacity >= 0 && len(l.order) == len(l.cache) && noDup(l) \
 //@    && (forall i :: 0 <= i && i < len(l.order) ==> l.order[i] in l.cache) \
 //@    && (forall k K :: k in l.cache ==> (exists i :: 0 <= i && i < len(l.order) && l.order[i] == k))
@@ -56,8 +58,8 @@ package cache
 //@ func (*LRUCache).Find
 //@   chain
 //@   requires wfLRU(l) && len(l.order) < 4611686018427387904
-//@   ensures result1 == (exists i, j :: 0 <= i && i < len(old(l.order)) && 0 <= j && j < len(keys) && old(l.order[i]) == keys[j])
-//@   ensures forall p :: result1 && 0 <= p && p < len(old(l.order)) && (exists j :: 0 <= j && j < len(keys) && old(l.order[p]) == keys[j]) && (forall q :: 0 <= q && q < p ==> !(exists j :: 0 <= j && j < len(keys) && old(l.order[q]) == keys[j])) ==> result == old(l.order[p])
+//@   ensures result1 == (exists i, j :: 0 <= i && i < len(old(l.order)) && 0 <= j && j < len(keys) && old(l.order[i]) == old(keys[j]))
+//@   ensures forall p :: result1 && 0 <= p && p < len(old(l.order)) && (exists j :: 0 <= j && j < len(keys) && old(l.order[p]) == old(keys[j])) && (forall q :: 0 <= q && q < p ==> !(exists j :: 0 <= j && j < len(keys) && old(l.order[q]) == old(keys[j]))) ==> result == old(l.order[p])
 //@   ensures result1 ==> l.order[len(l.order)-1] == result && len(l.order) == len(old(l.order))
 //@   ensures !result1 ==> l.order == old(l.order)
 //@   ensures noDup(l)
